@@ -10,3 +10,14 @@ UNITS["C18"] = [
          rule="every string of length <= 6 (thorough 8) over {a,b,delimiter(s)} for split/tokenize; all pairs of strings <= 4 over {a,b} for the prefix functions; every (type, file, parameter list of length <= 3 (4)) for PseudoURL; every string <= 6 (8) over {a . /} for FileName and all pairs <= 3 for operator+; every argv of length <= 5 over {-a,-b,x,1} x every remove range x consumers taking 0/1/2 parameters; prettyDouble/prettyNumber on 12 mantissas x decades 1e-15..1e21 and +-32 ulp around every branch constant. distinct = distinct observable results",
          assumptions=["the naive oracles in harness/C18_strings.cpp (maximal delimiter-free runs, last-component decomposition) are the intended definitions", "POSIX path separator"]),
 ]
+
+# per-property unit files lib/units_<ID>*.py each define UNITS_LOCAL = {pid: [Unit...]}
+import glob as _glob
+import importlib.util as _ilu
+import os as _os
+for _p in sorted(_glob.glob(_os.path.join(_os.path.dirname(_os.path.abspath(__file__)), "units_*.py"))):
+    _spec = _ilu.spec_from_file_location(_os.path.basename(_p)[:-3], _p)
+    _m = _ilu.module_from_spec(_spec)
+    _spec.loader.exec_module(_m)
+    for _k, _v in getattr(_m, "UNITS_LOCAL", {}).items():
+        UNITS.setdefault(_k, []).extend(_v)
